@@ -1025,7 +1025,7 @@ DLLIMPORT cfg_value_t *cfg_setopt(cfg_t *cfg, cfg_opt_t *opt, const char *value)
 			}
 			errno = 0;
 			f = strtod(value, &endptr);
-			if (*endptr != '\0') {
+			if (endptr == value || *endptr != '\0') {
 				cfg_error(cfg, _("invalid floating point value for option '%s'"), opt->name);
 				return NULL;
 			}
